@@ -1309,8 +1309,18 @@ def process_path(ctx, case, path_oracle_fn, sample_k, terms, meta):
     t0 = time.time()
     try:
         res = drive_path(case)
-    except Exception as e:       # a network the generator produced but gnpy cannot design / propagate: not a case
+    except Exception as e:
+        # a network the generator produced but gnpy cannot design, or a propagation gnpy itself aborts (e.g. the GGN
+        # solvers on a one-channel comb): not a case of this property, counted; an exception raised by the harness'
+        # own code is a bug of the harness and is not swallowed
+        tb = e.__traceback__
+        while tb.tb_next is not None:
+            tb = tb.tb_next
+        if os.path.dirname(os.path.abspath(tb.tb_frame.f_code.co_filename)) == os.path.dirname(os.path.abspath(__file__)):
+            raise
         ctx.count('path_rejected_' + type(e).__name__)
+        notes = ctx.extra.setdefault('rejected_examples', {})
+        notes.setdefault(type(e).__name__, f'{case["flavour"]}: {str(e)[:160]}')
         return False
     finally:
         ctx.extra.setdefault('path_seconds', {}).setdefault(case['flavour'], []).append(round(time.time() - t0, 2))
